@@ -6,7 +6,7 @@ import ast
 import z3
 
 from .core import Core, State, fresh_name, pin, simp
-from .vals import BM, Builtin, Cls, Fn, It, Mod, Star, SuperProxy, T, Tup, Unsupported
+from .vals import BM, Builtin, Cls, Fn, It, Mod, Mt, Star, SuperProxy, T, Tup, Unsupported
 
 OK, RAISE = "ok", "raise"
 
@@ -522,11 +522,17 @@ class ExprMixin(Core):
             raise Unsupported(f"attribute {attr} of object under construction")
         if isinstance(v, T) and v.kind != "V":
             return self.ok(BM(v, attr), st)
-        if isinstance(v, (Tup, It)):
+        if isinstance(v, (Tup, It, Mt)):
             return self.ok(BM(v, attr), st)
         if not isinstance(v, T):
             raise Unsupported(f"attribute {attr} of {v}")
         t = v.t
+        if v.kind == "V" and z3.is_app(t) and t.decl().kind() == z3.Z3_OP_DT_CONSTRUCTOR and t.decl().name().startswith("C_"):
+            # attribute of an explicitly constructed object: the constructor argument itself (accessor-of-constructor)
+            cname = t.decl().name()[2:]
+            ci = src.classes.get(cname)
+            if ci is not None and attr in ci.fields and len(ci.fields) == t.num_args():
+                return self.ok(T("V", t.arg(ci.fields.index(attr))), st)
         # field?
         alts = []  # (recogniser term, value term)
         for c in U.classes_with_field(attr):
